@@ -11,7 +11,9 @@ import (
 	"unicode/utf8"
 )
 
-type jv interface{ write(sb *strings.Builder, sp int) }
+type jv interface {
+	write(sb *strings.Builder, sp int)
+}
 
 type jkv struct {
 	k string
